@@ -495,12 +495,12 @@ GENERIC = {
     "C01": dict(
         rule="random 2-6 rule single-rule-set definitions over 3-5 letters (shared prefixes, cycles, joins, overlapping ranges, `_`), compiled through the real lexer! macro; inputs: all strings up to a length bound over the definition's alphabet plus one foreign letter, automaton-guided strings with failing continuations, random strings; oracle: reference maximal-munch lexer (derivative automaton, cross-checked against a denotational matcher). Non-trivial = distinct (definition, input) pairs in which the reference rewound at least one character or resolved a tie between two or more rules.",
         nt="nt_C01",
-        parts=[("munch", "base", 320, 4800, 20, SMALL, BIG)],
+        parts=[("munch", "base", 320, 4800, 20, SMALL, BIG), ("rctx", "base", 100, 1600, 20, SMALL, BIG)],
     ),
     "C03": dict(
-        rule="definitions with 2-7 rule sets (empty sets, shuffled declaration order, shared prefixes, self-switches, switch-and-return, switches in fallible rules); oracle: reference lexer; a divergence is attributed to C03 when the observed action belongs to a rule set other than the reference's active one. Non-trivial = distinct (definition, input) pairs whose reference run enters two or more rule sets.",
+        rule="definitions with 2-7 rule sets (empty sets, shuffled declaration order, shared prefixes, self-switches, switch-and-return, switches in fallible rules); oracle: reference lexer; a divergence is attributed to C03 when the observed action belongs to a rule set other than the reference's active one, or when restarting the reference in another rule set reproduces the remaining observed history; the eoi family adds `$` rules inside non-Init rule sets. Non-trivial = distinct (definition, input) pairs whose reference run enters two or more rule sets.",
         nt="nt_C03",
-        parts=[("rulesets", "base", 240, 3600, 20, SMALL, BIG), ("recover", "base", 120, 1600, 20, SMALL, BIG)],
+        parts=[("rulesets", "base", 240, 3600, 20, SMALL, BIG), ("recover", "base", 120, 1600, 20, SMALL, BIG), ("eoi", "base", 100, 1600, 20, SMALL, BIG)],
     ),
     "C04": dict(
         rule="rules with right contexts of every operator shape (multi-character literals, sets, repetition, nullable, `$`, class differences, built-ins) at every priority position, mixed with context-free rules. Non-trivial = distinct (definition, input) pairs in which at least one context evaluation failed and at least one succeeded.",
@@ -536,7 +536,7 @@ GENERIC = {
     "C10": dict(
         rule="definitions with every assignment of action kinds (skip, simple, return, continue with/without reset, switch, switch-and-return, fallible ok/err) under guards on peek/length/counter; oracle: reference lexer on the full action log (match_loc, match_, peek, counter, match after reset) and items; metamorphic: sugar forms vs their documented desugaring. Non-trivial = distinct (definition, input) pairs whose action history has length >= 3 and >= 2 different kinds.",
         nt="nt_C10",
-        parts=[("actions", "desugar", 200, 3200, 20, SMALL, BIG), ("accum", "desugar", 160, 2400, 20, SMALL, BIG)],
+        parts=[("actions", "desugar", 200, 3200, 20, merged(SMALL, VP_CTORS=1), merged(BIG, VP_CTORS=1)), ("accum", "desugar", 160, 2400, 20, SMALL, BIG)],
     ),
     "C14": dict(
         rule="every execution is repeated with new, new_from_iter(Chars), new_from_iter_with_state(Chars), and both iterator constructors over a counting iterator (different Clone implementation); all item streams and action logs (minus match_ text) must equal those of new_with_state. Non-trivial = distinct (definition, input) pairs with a rewind (iterator re-seated) or a context evaluation.",
